@@ -16,11 +16,12 @@ import (
 
 // Schedule mirrors simrt.Schedule (the driver never links coca).
 type Schedule struct {
-	Codes []int  `json:"codes"`
-	Tail  string `json:"tail"`
-	Seed  uint64 `json:"seed"`
-	Pct   int    `json:"pct,omitempty"`
-	Site  string `json:"site,omitempty"`
+	Codes    []int  `json:"codes"`
+	Tail     string `json:"tail"`
+	Seed     uint64 `json:"seed"`
+	Pct      int    `json:"pct,omitempty"`
+	Site     string `json:"site,omitempty"`
+	SiteCode int    `json:"site_code,omitempty"`
 }
 
 // Canonical is the reference schedule: every map iteration in sorted key order.
